@@ -384,3 +384,17 @@ Definition failing_classes (c : ncase) : list N :=
 Definition verdict29 (c : ncase) : Util.verdict :=
   (agree c, in_domain c, holds c, if holds c then ncls c all_classes else dedupN (failing_classes c)).
 Definition report_C29 := run_report verdict29.
+
+(* ------------------------------------------------------------------------------------------ *)
+(* cases whose observation is the mirror model's own output (refutation witnesses stated inside Coq; the
+   harness meets the same shapes on the implementation) *)
+Definition self_n (imports : list (N * N)) (funcs globals mems : list N) (nm : names) (h : list nop) : ncase :=
+  let c0 := mkNC imports funcs globals mems nm h [] false None in
+  match init_state c0 with
+  | Panic _ => c0
+  | Ok s0 =>
+      let '(s, rets, p) := nrun_pref s0 h [] in
+      let enc := if p then None else match nencode nm s with Ok en => Some en | Panic _ => None end in
+      mkNC imports funcs globals mems nm h rets p enc
+  end.
+Definition only_names (f : nmap) (l : imap) (g : nmap) : names := mkNames None f l [] [] [] [] g [] [] [].
